@@ -79,6 +79,9 @@ theorem signedness_matches_gcc :
         (has fl "CT_IS_SIGNED_WCHAR" = true → has fl "CT_PRIMITIVE_CHAR" = true)) := by
   decide +kernel
 
+-- non-vacuity
+example : (backendEntry "wchar_t").bind rowFlags = some ["CT_PRIMITIVE_CHAR", "CT_IS_SIGNED_WCHAR"] := by decide +kernel
+
 /-- `ct_size = sizeof(T)` and `ct_length = offsetof(struct {char x; T y;}, y)` for the
 backend's C type `T` of each name equal gcc's `sizeof` and `_Alignof` of the C type the
 name denotes (`ssize_t` vs `Py_ssize_t`, `char16_t` vs `cffi_char16_t`,
@@ -100,6 +103,10 @@ theorem range_matches_gcc :
       ∀ sz ∈ rowSize e, ∀ f ∈ factOfName e.name, intRange fl sz = some (f.min, f.max)) := by
   decide +kernel
 
+-- non-vacuity
+example : ((backendEntry "_Bool").bind rowFlags).bind kindOfFlags = some 'i' ∧
+    ((backendEntry "_Bool").bind rowFlags).bind (fun fl => intRange fl 1) = some (0, 1) := by decide +kernel
+
 /-- `CT_PRIMITIVE_FITS_LONG` is set exactly for the integer and character rows whose
 gcc range lies within gcc's range of `long`, and never for float / complex rows. -/
 theorem fits_long_flag_correct :
@@ -110,6 +117,10 @@ theorem fits_long_flag_correct :
         fitsLong fl sz = some (decide (lg.min ≤ f.min ∧ f.max ≤ lg.max))) ∧
       ((kindOfFlags fl = some 'f' ∨ kindOfFlags fl = some 'j') → fitsLong fl sz = some false)) := by
   decide +kernel
+
+-- non-vacuity
+example : ((backendEntry "unsigned long").bind rowFlags).bind (fun fl => fitsLong fl 8) = some false ∧
+    ((backendEntry "unsigned int").bind rowFlags).bind (fun fl => fitsLong fl 4) = some true := by decide +kernel
 
 /-- Every arm of `search_standard_typename` is exact and reachable: `size == |lit| + 2`,
 the `memcmp` covers the whole literal, the arm sits under the `case` labels (`p[4]`,
@@ -163,6 +174,10 @@ theorem standardTypename_exact (s : List Char) (i : Int) :
   · rintro ⟨a, hmem, rfl, hi⟩
     rw [(hreach a hmem).1, hi]
 
+-- non-vacuity
+example : ∃ a ∈ stdArms, "ssize_t".toList = armName a ∧ cPrim a.result = some 29 :=
+  (standardTypename_exact _ _).mp (by decide +kernel)
+
 /-- The C parser resolves every `_t` name to the index the code generator emits for
 it: `search_standard_typename(name) = PRIMITIVE_TO_INDEX[name]`; names that do not end
 in `_t` are left to the keyword parser (`-1`). -/
@@ -174,6 +189,12 @@ theorem c_parser_names_resolve :
       (endsT p.1.toList = true → standardTypename p.1.toList = primitiveIndex p.1) ∧
       (endsT p.1.toList = false → standardTypename p.1.toList = none)) := by
   decide +kernel
+
+-- non-vacuity
+example : ("uint_least16_t", "UINT_LEAST16") ∈ primitiveToIndex ∧ endsT "uint_least16_t".toList = true ∧
+    standardTypename "uint_least16_t".toList = some 33 := by decide +kernel
+example : ("unsigned long", "ULONG") ∈ primitiveToIndex ∧ endsT "unsigned long".toList = false := by decide +kernel
+example : standardTypename "ssize_x".toList = none ∧ standardTypename "size_t_t".toList = none := by decide +kernel
 
 /-- Keyword tests of `next_token` are exact (`size == |lit|`, full-length `memcmp`, under
 the `case` of their own first character) and each keyword gets its own token kind. -/
@@ -193,6 +214,10 @@ theorem keyword_names_resolve :
     (∀ p ∈ primitiveToIndex, (primitiveIndex p.1).map Spec.prim = some (cTypeOfString p.1)) := by
   decide +kernel
 
+-- non-vacuity
+example : cTypeOfString "long unsigned int" = .prim 10 ∧ cTypeOfString "int long" = .error ∧
+    cTypeOfString "long long long" = .error ∧ cTypeOfString "FILE" = .other := by decide +kernel
+
 /-- The common-type spellings agree: every `COMMON_TYPES['k'] = 'v'` of commontypes.py
 names a primitive type `v`, the C parser reads `k` as exactly that primitive
 (`bool`, `float _Complex`, `double _Complex`), and the C table `common_simple_types[]`
@@ -204,20 +229,5 @@ theorem common_types_agree :
     (∀ c ∈ commonTypesC, ∀ v ∈ assoc commonTypesPy c.1, v = c.2) ∧
     (assoc commonTypesC "bool").isSome = true := by
   decide +kernel
-
--- Non-vacuity: the implications inside the quantifiers have witnesses.
-example : ("uint_least16_t", "UINT_LEAST16") ∈ primitiveToIndex ∧ endsT "uint_least16_t".toList = true ∧
-    standardTypename "uint_least16_t".toList = some 33 := by decide +kernel
-example : ("unsigned long", "ULONG") ∈ primitiveToIndex ∧ endsT "unsigned long".toList = false := by decide +kernel
-example : ∃ a ∈ stdArms, "ssize_t".toList = armName a ∧ cPrim a.result = some 29 :=
-  (standardTypename_exact _ _).mp (by decide +kernel)
-example : standardTypename "ssize_x".toList = none ∧ standardTypename "size_t_t".toList = none := by decide +kernel
-example : (backendEntry "wchar_t").bind rowFlags = some ["CT_PRIMITIVE_CHAR", "CT_IS_SIGNED_WCHAR"] := by decide +kernel
-example : ((backendEntry "_Bool").bind rowFlags).bind kindOfFlags = some 'i' ∧
-    ((backendEntry "_Bool").bind rowFlags).bind (fun fl => intRange fl 1) = some (0, 1) := by decide +kernel
-example : ((backendEntry "unsigned long").bind rowFlags).bind (fun fl => fitsLong fl 8) = some false ∧
-    ((backendEntry "unsigned int").bind rowFlags).bind (fun fl => fitsLong fl 4) = some true := by decide +kernel
-example : cTypeOfString "long unsigned int" = .prim 10 ∧ cTypeOfString "int long" = .error ∧
-    cTypeOfString "long long long" = .error ∧ cTypeOfString "FILE" = .other := by decide +kernel
 
 end CffiVerif.C06
